@@ -4,10 +4,20 @@ finding key (rule|function|anchor) -- never wider.
 """
 
 TABLE = {
-    "T3|PVLDecoder.decode_quantity|raise QuantityError [in except ValueError]": {
+    "T3|PVLDecoder.decode_quantity|QuantityError from raise QuantityError [in except ValueError]": {
         "reason": "reachable only when a user-supplied quantity_cls raises ValueError; the five bundled "
                   "configurations use pvl.collections.Quantity, a namedtuple whose constructor cannot raise "
                   "ValueError; QuantityError is the documented result for user classes",
+        "properties": None,
+    },
+    "T3|lex_char|ValueError from raise ValueError [else-of preserve['state'] in (Preserve.UNIT, Preserve.QUOTE, Preserve.NONDECIM…]": {
+        "reason": "unreachable: the Preserve enum is closed (FALSE, COMMENT, UNIT, QUOTE, NONDECIMAL) and every member "
+                  "is handled by the preceding branches; the preserve dict is only ever built by the lexer helpers",
+        "properties": None,
+    },
+    "T3|lex_multichar_comments|ValueError from raise ValueError [if len(comments) == 0]": {
+        "reason": "unreachable: lex_comment() calls lex_multichar_comments only when char is in c_info['multi_chars'], "
+                  "which is non-empty only if the grammar has a multi-character comment pair, so comments is not empty",
         "properties": None,
     },
 }
